@@ -103,6 +103,10 @@ func (o *objectGoSlice) getOwnPropIdx(idx valueInt) Value {
 }
 
 func (o *objectGoSlice) grow(size int) {
+	if size < 0 || int64(size) > math.MaxUint32 {
+		// also catches idx+1 overflowing; a Go slice cannot be longer than a JS array
+		panic(rangeError("Invalid array length"))
+	}
 	oldcap := cap(*o.data)
 	if oldcap < size {
 		n := make([]interface{}, size, growCap(size, len(*o.data), oldcap))
